@@ -451,7 +451,63 @@ pub fn draw(rng: &mut Rng) -> RoundCfg {
     cfg.focus_site = *rng.pick(&[fvf::EV_RESIZE_INITIATED, fvf::EV_RESIZE_INITIATED, fvf::EV_HELPER_JOINED, fvf::WIN_TRANSFER_AFTER_FORWARD, fvf::WIN_TRANSFER_BEFORE_FORWARD, 0]);
     cfg.record_events = true;
     cfg.prefill = 0;
+    if rng.chance(1, 8) {
+        return threshold_race(rng, cfg);
+    }
+    if rng.chance(1, 6) {
+        large_table(rng, &mut cfg);
+    }
     cfg
+}
+
+/// threshold race: a table two entries short of its threshold, 3-4 threads insert one fresh
+/// key each at the same moment; whoever brings the count to the threshold has to resize
+pub fn threshold_race(rng: &mut Rng, mut cfg: RoundCfg) -> RoundCfg {
+    {
+        let (cap, threshold) = *rng.pick(&[(0usize, 12u64), (16, 24), (40, 48), (64, 96)]);
+        cfg.mode = IDENTITY;
+        cfg.cap = cap;
+        cfg.prefill = threshold - 2;
+        cfg.threads = rng.range(3, 4) as usize;
+        cfg.nkeys = cfg.prefill + cfg.threads as u64;
+        cfg.ops = 1;
+        cfg.fresh_keys = true;
+        cfg.mix = Mix::standard();
+        cfg.mix.get = 0;
+        cfg.mix.get_kv = 0;
+        cfg.mix.contains = 0;
+        cfg.mix.remove = 0;
+        cfg.mix.remove_entry = 0;
+        cfg.mix.compute_some = 0;
+        cfg.mix.compute_none = 0;
+        cfg.mix.compute_cond = 0;
+        cfg.mix.try_insert = 0;
+        cfg.mix.iterate = 0;
+        cfg.mix.reserve = 0;
+        cfg.mix.insert = 100;
+        cfg.delay_level = 0;
+        cfg.focus_site = 0;
+        cfg.record_events = true;
+        cfg
+    }
+}
+
+fn large_table(rng: &mut Rng, cfg: &mut RoundCfg) {
+    {
+        // a large table filled to just under its threshold: the transfer has several strides
+        // (stride = max(n / 8 / cpus, 16)), claimed by different threads
+        let (cap, prefill, nkeys) = *rng.pick(&[(1400usize, 3060u64, 3600u64), (3000, 6130, 7000), (3000, 6140, 6600), (700, 1530, 1900)]);
+        cfg.mode = *rng.pick(&[UNIFORM, IDENTITY]);
+        cfg.cap = cap;
+        cfg.prefill = prefill;
+        cfg.nkeys = nkeys;
+        cfg.threads = rng.range(4, 12) as usize;
+        cfg.ops = rng.range(40, 80) as usize;
+        cfg.mix.remove = 0;
+        cfg.mix.reserve = 0;
+        cfg.disjoint = false;
+        cfg.focus_site = *rng.pick(&[fvf::EV_RESIZE_INITIATED, fvf::EV_HELPER_JOINED, 0]);
+    }
 }
 
 pub fn run(ctx: &Ctx) -> Outcome {
@@ -538,11 +594,18 @@ pub fn run(ctx: &Ctx) -> Outcome {
     // free-run
     let target = ctx.args.u64("rounds", ctx.q(150, 5000));
     let mut round = ctx.args.u64("first-round", 0);
-    let target = target + round;
+    let target = if ctx.args.u64("rounds", 0) == 1 { target + round } else { 2 * target + round };
     while round < target && ctx.time_left() {
         let rs = splitmix(ctx.seed ^ splitmix(ctx.shard.wrapping_mul(0x10C0) ^ round) ^ 0xC10);
         let mut rng = Rng::new(rs);
-        let cfg = draw(&mut rng);
+        // every other round is a threshold race (short: 3-4 calls)
+        let cfg = if round % 2 == 1 {
+            out.add("threshold_race_rounds", 1);
+            let base = draw(&mut rng);
+            threshold_race(&mut rng, base)
+        } else {
+            draw(&mut rng)
+        };
         let r = run_round(&cfg, rs);
         round += 1;
         out.evaluations += 1;
@@ -555,7 +618,24 @@ pub fn run(ctx: &Ctx) -> Outcome {
         } else {
             match resize_monitor(&r.events, r.final_len) {
                 Err(e) => problem = Some(e),
+                Ok(st) if st.generations == 0
+                    && cfg.prefill > 0
+                    && r.final_size_ctl > 0
+                    && r.final_count >= r.final_size_ctl
+                    && r.final_len < (1 << 30)
+                    && !r.events.iter().any(|e| matches!(e.site, fvf::EV_RESIZE_INITIATED | fvf::EV_RESIZE_BEGIN | fvf::EV_HELPER_JOINED)) =>
+                {
+                    // sound only because no resize ever began in this round: with a resize in flight an
+                    // insert may legitimately leave without re-checking the threshold
+                    problem = Some(format!(
+                        "the entry count reached {} in a {}-bin table whose resize threshold is {}, no resize was ever begun during the round, and all calls have returned: the insert that brought the count to the threshold did not replace the table",
+                        r.final_count, r.final_len, r.final_size_ctl
+                    ));
+                }
                 Ok(st) => {
+                    if r.final_size_ctl > 0 && r.final_count < r.final_size_ctl {
+                        out.add("freerun_rounds_ending_below_threshold", 1);
+                    }
                     out.add("generations", st.generations);
                     out.add("bins_forwarded", st.bins_forwarded);
                     out.add("generations_multi_helper", st.multi_helper_generations);
